@@ -59,6 +59,38 @@ def main():
             else:
                 os.replace(tmp, dst)
             replace[src] = dst
+    if os.path.exists(rw) and spec.get("yield_files"):
+        ytool = os.path.join(verif, "bin", "build", "yieldrewrite")
+        ysrc = os.path.join(verif, "tools", "yieldrewrite", "main.go")
+        if not os.path.exists(ytool) or os.path.getmtime(ytool) < os.path.getmtime(ysrc):
+            env = dict(os.environ, GOFLAGS="-mod=mod", GOPROXY="off", GOSUMDB="off", GOTOOLCHAIN="local")
+            tmpbin = "%s.%d" % (ytool, os.getpid())
+            p = subprocess.run(["go1.26.8", "build", "-o", tmpbin, "."], cwd=os.path.dirname(ysrc), capture_output=True, text=True, env=env)
+            if p.returncode != 0:
+                print("yieldrewrite build failed:\n" + p.stdout + p.stderr)
+                return 2
+            os.replace(tmpbin, ytool)
+        rdir = os.path.join(outdir, "rewritten")
+        os.makedirs(rdir, exist_ok=True)
+        for rel in spec["yield_files"]:
+            src = os.path.join(repo, rel)
+            dst = os.path.join(rdir, rel.replace("/", "__"))
+            tmp = "%s.%d.tmp" % (dst, os.getpid())
+            p = subprocess.run([ytool, src, tmp], capture_output=True, text=True)
+            if p.returncode != 0:
+                print("yieldrewrite failed on %s:\n%s%s" % (rel, p.stdout, p.stderr))
+                return 2
+            same = False
+            try:
+                with open(tmp, "rb") as a, open(dst, "rb") as b:
+                    same = a.read() == b.read()
+            except OSError:
+                pass
+            if same:
+                os.remove(tmp)
+            else:
+                os.replace(tmp, dst)
+            replace[src] = dst
     os.makedirs(outdir, exist_ok=True)
     path = os.path.join(outdir, "overlay.json")
     tmp = "%s.%d.tmp" % (path, os.getpid())
